@@ -216,6 +216,7 @@ func (w *Worker) intrinsic(s *State, f *Frame, name string, fn *ssa.Function, ar
 			}
 			return adv(nil)
 		case "Observe":
+			s.obs = append(s.obs, ObsEnt{args[0].(string), args[1]})
 			return adv(nil)
 		case "Spawn":
 			cl := args[0].(*Closure)
